@@ -210,7 +210,11 @@ class MailboxData(MailboxDataInterface[Message]):
 
     @classmethod
     def _get_object_id(cls, rec: Record, field: str) -> ObjectId | None:
-        return ObjectId.maybe(rec.fields.get(field))
+        value = rec.fields.get(field)
+        if value is not None:
+            # files written before hold the parenthesized form
+            value = value.strip('()')
+        return ObjectId.maybe(value)
 
     @property
     def mailbox_id(self) -> ObjectId:
@@ -272,7 +276,8 @@ class MailboxData(MailboxDataInterface[Message]):
             key = maildir.add(maildir_msg)
             filename = key + ':' + maildir_msg.get_info()
         async with UidList.with_write(self._path) as uidl:
-            fields = {'E': str(email_id), 'T': str(thread_id)}
+            fields = {'E': email_id.value.decode('ascii'),
+                      'T': thread_id.value.decode('ascii')}
             new_rec = Record(uidl.next_uid, fields, filename)
             uidl.next_uid += 1
             uidl.set(new_rec)
@@ -430,8 +435,10 @@ class MailboxData(MailboxDataInterface[Message]):
                 keys.pop(rec.key, None)
             for key, info in keys.items():
                 filename = key + ':' + info
-                fields = {'E': str(ObjectId.random_email_id()),
-                          'T': str(ObjectId.random_thread_id())}
+                email_id = ObjectId.random_email_id()
+                thread_id = ObjectId.random_thread_id()
+                fields = {'E': email_id.value.decode('ascii'),
+                          'T': thread_id.value.decode('ascii')}
                 new_rec = Record(uidl.next_uid, fields, filename)
                 uidl.next_uid += 1
                 uidl.set(new_rec)
